@@ -220,7 +220,21 @@ def _index(w, x):
     return -1
 
 
+VARIANTS = [None, {'cls': 'Ab', 'plain': 'xY', 'ident': 'Id', 'ref': 'rF', 'tcls': 'Tq', 'tkey': 'k'},
+            {'cls': 'aB', 'plain': 'XY', 'ident': 'ID', 'ref': 'RF', 'tcls': 'tQ', 'tkey': 'K'}]
+LONG_VARIANTS = [None, {'cls': 'Ab_c', 'plain': 'nAME', 'ident': 'key_X', 'ref': 't_ID', 'tcls': 'Tq', 'tkey': 'k'},
+                 {'cls': 'AB_C', 'plain': 'NAME', 'ident': 'KEY_x', 'ref': 'T_Id', 'tcls': 'TQ', 'tkey': 'K'}]
+
+
 def run_sequence(case, names=None, value_pool=(1, 2, 0)):
+    # the DECLARED spelling varies between cases too (several metamodels with the same class kind live in one
+    # process); which variant is a pure function of the case
+    from .core import sha
+    v = int(sha(case['ops'])[:2], 16) % 3
+    if names is None:
+        names = VARIANTS[v]
+    elif v:
+        names = LONG_VARIANTS[v]
     w = World(names)
     for op in case['ops']:
         apply(w, op, case)
